@@ -3,12 +3,14 @@ from fractions import Fraction as F
 
 from harness import simdrv as S
 from harness import simprops as SP
+from harness.impl import E_SCHED
 
 ID = 'C16'
 BRIDGE_IMPORTS = 'From Eudoxia Require Import Model.SchedSrc.\n'
 BRIDGE = [('sched_priority_pool', 'ext_sched_priority_pool = sched_priority_pool_src', 'reflexivity.')]
 MASK = S.M_DEC | S.M_RES | S.M_POOLS
-ASSUMPTIONS = ['two pools, multi-operator containers (the configuration the scheduler supports; see known finding F10)']
+ASSUMPTIONS = ['two pools, multi-operator containers (the configuration the scheduler supports; see known finding F10); '
+               'with any other pool count the scheduler refuses to start (stream G-sim-ppool-npools)']
 
 
 def monitor(run):
@@ -41,7 +43,29 @@ def monitor(run):
                            f'pool ({pb["max_cpu"]} CPUs, {pb["max_ram"]} GB) but was assigned')
 
 
+def monitor_startup(run):
+    """init_priority_pool_scheduler asserts `s.executor.num_pools == 2` (priority_pool.py:20): with any other pool
+    count run_simulator must raise that assertion before the first tick; with two pools it must not"""
+    n = run.r['npools']
+    if n != 2:
+        if not run.err:
+            yield f'priority-pool ran to the end on {n} pools'
+        elif run.ticks or run.err != E_SCHED:
+            yield (f'priority-pool on {n} pools: expected the init assertion before tick 0, got {run.exc} after '
+                   f'{len(run.ticks)} tick(s)')
+    elif run.err == E_SCHED and not run.ticks and 'requires 2 pools' in (run.exc or ''):
+        yield 'priority-pool refused to start on two pools'
+
+
+def gen_npools(rng, gen='G-sim-ppool-npools'):
+    recipe = S.gen_sim(rng, algo='priority-pool', gen=gen)
+    recipe['npools'] = rng.choice([1, 3, 1, 3, 0, 4, 2])
+    return recipe
+
+
 def replay(recipe):
+    if recipe.get('gen') == 'G-sim-ppool-npools':
+        return SP.replay(recipe, MASK, monitor_startup, 'priority-pool-pool-count')
     return SP.replay(recipe, MASK, monitor, 'priority-pool-contract')
 
 
@@ -50,7 +74,24 @@ def run(ctx):
         ('G-sim-ppool', 300, 6000, dict(algo='priority-pool')),
         ('G-sim-saturate-ppool', 120, 2000, dict(saturate='priority-pool')),
     ])
+    # pool counts other than two: both sides must refuse before the first tick (model: sim_dump_main / sim_main)
+    st = dict(out['dist'])
+    for i in range(ctx.budget(28, 300)):
+        rng = ctx.case_rng('G-sim-ppool-npools', i)
+        recipe = gen_npools(rng)
+        recipe['case_index'] = i
+        case, run_ = S.drive(recipe, MASK)
+        out['cases'].append(case)
+        st['startup_runs'] = st.get('startup_runs', 0) + 1
+        st['startup_refused'] = st.get('startup_refused', 0) + (run_.err == E_SCHED and not run_.ticks)
+        st[f'startup_npools_{recipe["npools"]}'] = st.get(f'startup_npools_{recipe["npools"]}', 0) + 1
+        for desc in monitor_startup(run_):
+            out['hits'].append(dict(desc=desc, signature='priority-pool-pool-count', recipe=recipe,
+                                    gen='G-sim-ppool-npools'))
+            break
+    out['dist'] = st
     out['rule'] = ('whole run_simulator runs with priority-pool on two pools, all priority mixes, RAM sized so that OOM '
                    'retries double 1-3 times and hit the 50% cut-off; compared per tick: decisions, results, free '
-                   'resources. non-trivial = runs with an assignment')
+                   'resources; plus priority-pool on 0, 1, 3, 4 pools, which must be refused before tick 0 on both sides. '
+                   'non-trivial = runs with an assignment')
     return out
